@@ -197,6 +197,9 @@ def run_contract(con, timeout_ms=10000, keep_models=True, verbose=False):
             agg["time_s"] += r["time_s"]
             agg["instances"] += r.get("instances", 0)
             agg["backends"][r["backend"]] = agg["backends"].get(r["backend"], 0) + 1
+            if r.get("crosscheck"):
+                k = "cross-check " + r["crosscheck"]
+                agg["backends"][k] = agg["backends"].get(k, 0) + 1
             if r["status"] == "sat":
                 agg["status"] = "sat"
                 if keep_models and "model" in r and "model" not in agg:
